@@ -51,7 +51,7 @@ TotalMaterial(b) == Cardinality({i \in Sq : b[i] # 0})
 (* record itself for a reset).                                             *)
 
 RootState(e) ==
-  [ph |-> e.ph, b |-> e.b, s |-> e.s, st |-> e.st, mn |-> e.mn, pp |-> e.pp,
+  [ph |-> e.ph, b |-> e.b, s |-> e.s, st |-> e.st, mn |-> e.mnl, mnp |-> e.mn, pp |-> e.pp,
    tb |-> <<>>,
    hist |-> IF e.ph = 1 THEN <<<<e.b, e.s>>>> ELSE <<>>,
    hx   |-> IF e.ph = 1 THEN <<e.th>> ELSE <<>>,
@@ -64,7 +64,7 @@ ChildState(pre, e) ==
       cap   == TotalMaterial(e.b) < TotalMaterial(pre.b)
       fresh == pre.ph = 0            \* the play phase begins with this event
   IN
-  [ph |-> e.ph, b |-> e.b, s |-> e.s, st |-> e.st, mn |-> e.mn, pp |-> e.pp,
+  [ph |-> e.ph, b |-> e.b, s |-> e.s, st |-> e.st, mn |-> e.mnl, mnp |-> e.mn, pp |-> e.pp,
    tb |-> IF e.ph = 1 /\ e.st > 0 THEN Append(pre.tb, pre.b) ELSE <<>>,
    hist |-> IF ~ended THEN pre.hist
             ELSE IF fresh THEN <<<<e.b, e.s>>>> ELSE Append(pre.hist, <<e.b, e.s>>),
@@ -153,7 +153,7 @@ C09_State(e, cs) ==
            SetOf(e.off) = {PlaceAct(t) : t \in Placeable(e.b, e.s)} /\ NoDup(e.off)
              /\ e.off = e.norep)
     /\ Chk("C09", "setup state with wrong counters",
-           e.mn = 1 /\ e.term = 0 /\ e.hm = 0)
+           e.mn = Limbs(1) /\ e.term = 0 /\ e.hm = 0)
 
 CellsOf(e, c) == {k \in Sq : e.b[k] = c}
 C10_State(e, cs) ==
@@ -173,7 +173,7 @@ C10_State(e, cs) ==
   /\ Chk("C10", "bits_by_piece_type disagrees", \A t \in Types : SetOf(e.bbt[t]) = tb[t])
   /\ Chk("C10", "player_piece_mask disagrees",
          SetOf(e.ppm[1]) = p1 /\ SetOf(e.ppm[2]) = all \ p1)
-  /\ Chk("C10", "printed diagram disagrees with the board", e.txt = PrintPos(e.b, e.s, e.mn))
+  /\ Chk("C10", "printed diagram disagrees with the board", e.txt = PrintPosT(e.b, e.s, LimbText(e.mn)))
   /\ Chk("C10", "more pieces than the complement", LegalMaterial(e.b))
   /\ Chk("C10", "unsupported piece on a trap after an action", e.ev = "act" => TrapClean(e.b))
 
@@ -204,7 +204,7 @@ C14_State(e, cs) ==
     /\ CountIf(12, e.st = 3)
 
 C15_State(e, cs) ==
-  /\ Chk("C15", "printed form differs from the diagram of the state", e.txt = PrintPos(e.b, e.s, e.mn))
+  /\ Chk("C15", "printed form differs from the diagram of the state", e.txt = PrintPosT(e.b, e.s, LimbText(e.mn)))
   /\ Chk("C15", "printed diagram does not parse", e.rp.ok = 1)
   /\ Chk("C15", "re-parsed state differs",
          /\ e.rp.ph = 1 /\ e.rp.b = e.b /\ e.rp.s = e.s /\ e.rp.mn = e.mn
@@ -265,7 +265,9 @@ C02_Trans(pre, a, e) ==
 C03_Trans(pre, a, n, e) ==
   pre.ph = 1 =>
     /\ Chk("C03", "side, step or move number differ from the turn structure",
-           e.ph = 1 /\ e.s = n.s /\ e.st = n.st /\ e.mn = n.mn)
+           /\ e.ph = 1 /\ e.s = n.s /\ e.st = n.st
+           \* the move number grows by one exactly when Silver's turn ends (three-limb arithmetic)
+           /\ e.mn = LimbAdd(pre.mnp, IF n.st = 0 /\ n.s # pre.s /\ pre.s = Silver THEN 1 ELSE 0))
     /\ Chk("C03", "turn end does not reset the per-turn record",
            n.st = 0 => (e.pp = NoPP /\ e.prev = <<>> /\ e.tt = 0))
     /\ Chk("C03", "step counter out of range or per-turn record of the wrong length",
@@ -284,7 +286,7 @@ C09_Trans(pre, a, n, e) ==
     /\ Chk("C09", "placement did not put the piece on the next home square",
            e.b = [pre.b EXCEPT ![NextHomeSquare(pre.b, pre.s)] = Cell(pre.s, a[2])])
     /\ Chk("C09", "phase, side or counters wrong after a placement",
-           e.ph = n.ph /\ e.s = n.s /\ e.mn = n.mn /\ e.st = 0 /\ e.pp = NoPP /\ e.prev = <<>>)
+           e.ph = n.ph /\ e.s = n.s /\ e.mn = Limbs(n.mn) /\ e.st = 0 /\ e.pp = NoPP /\ e.prev = <<>>)
     /\ Chk("C09", "play phase does not start with a one-entry history",
            n.ph = 1 => e.hl = 1)
     /\ CountIf(17, n.ph = 1)
@@ -325,7 +327,7 @@ TransConjuncts(pre, a, n, e, cs) ==
 ResetShape(e) ==
   IF e.via = "initial"
   THEN Chk("C09", "initial state is not the empty setup state",
-           e.ph = 0 /\ e.b = EmptyBoard /\ e.s = Gold /\ e.mn = 1)
+           e.ph = 0 /\ e.b = EmptyBoard /\ e.s = Gold /\ e.mn = Limbs(1))
   ELSE Chk("C15", "parsed state is not a start-of-turn state with one history entry",
            e.ph = 1 /\ e.st = 0 /\ e.pp = NoPP /\ e.hl = 1 /\ e.prev = <<>>)
 
